@@ -221,6 +221,16 @@ def check_peer(task, st):
         kind = 'policy-does-not-load' if 'Error while loading policy file' in r1.stdout else 'fails-on-same-peer'
         st.violation('%s:%s:%s' % (kind, role, name_class(spec)), {'spec': spec, 'role': role, 'status': r1.status, 'stdout': r1.stdout[:600], 'policy_file': open(path).read()[-600:]})
         return
+    # the verdict document is the same whatever output options accompany -j (indentation, minimum level, verbosity)
+    for oo in (['-jj'], ['-j', '-l', 'warn'], ['-jj', '-l', 'fail'], ['-j', '-v']):
+        ro = audit(spec, role, ['-P', path] + oo)
+        st.execution(ro.world, outcome=('same-opts', ' '.join(oo), ro.status), root=('same-opts', ' '.join(oo), json.dumps(spec, sort_keys=True), role))
+        try:
+            do = json.loads(ro.stdout)
+        except ValueError:
+            do = None
+        if ro.status != 0 or do != d:
+            st.violation('same-peer-verdict-depends-on-output-options:%s:%s' % (role, ' '.join(oo)), {'spec': spec, 'status': ro.status, 'stdout': ro.stdout[:300]})
     if role == 'server':
         # started from cron / a daemon wrapper with stdout closed: the verdict is still delivered through the exit status
         rc = audit(spec, role, ['-P', path], stdout_mode='closed')
@@ -231,6 +241,7 @@ def check_peer(task, st):
     pt = report.PolicyText(rt.stdout)
     if rt.status != 0 or pt.result != 'passed':
         st.violation('fails-on-same-peer-text:%s' % role, {'spec': spec, 'status': rt.status, 'stdout': rt.stdout[:400]})
+    n_drift = 0
     for kind, field, s2 in perturbations(spec, role):
         r2 = audit(s2, role, ['-P', path, '-j'])
         st.execution(r2.world, outcome=('drift', kind, r2.status), root=('drift', kind, json.dumps(s2, sort_keys=True), role),
@@ -245,6 +256,17 @@ def check_peer(task, st):
         fields = [e['mismatched_field'] for e in d.get('errors', [])]
         if not any(f.startswith(field) for f in fields):
             st.violation('drift-field-not-named:%s:%s' % (role, kind), {'spec': spec, 'perturbed': s2, 'fields': fields, 'expected_field': field})
+        if n_drift % 4 == 0:
+            oo = (['-jj', '-l', 'warn'], ['-j', '-l', 'fail'])[(n_drift // 4) % 2]
+            r3 = audit(s2, role, ['-P', path] + oo)
+            st.execution(r3.world, outcome=('drift-opts', kind, r3.status), root=('drift-opts', ' '.join(oo), kind, json.dumps(s2, sort_keys=True), role))
+            try:
+                d3 = json.loads(r3.stdout)
+            except ValueError:
+                d3 = None
+            if r3.status != 3 or d3 != d:
+                st.violation('drift-verdict-depends-on-output-options:%s:%s' % (role, ' '.join(oo)), {'spec': spec, 'perturbed': s2, 'status': r3.status, 'stdout': r3.stdout[:300]})
+        n_drift += 1
     if os.path.exists(path):
         os.unlink(path)
 
